@@ -732,7 +732,7 @@ func main() {
 	}
 
 	// 1. sequences
-	ns := run.Count(450, 60000)
+	ns := run.Count(650, 60000)
 	fixed := []string{"", " ", "0", "0*", "0+", "0?", "1-1 1-2 | 1-3", "(1-1 1-2) | 1-3", "1-1 (1-2 | 1-3)", "1-1|1-2 1-3",
 		"1-FF00:0:110 0", "1-0:0:1 0", "1 -1 0", "1-00", "1-0:0:01 0", "1#0", "0-0-0#0", "0#0#0", "1-0", "()", "(0", "0)",
 		"0 | | 0", "| 0", "0 |", "0 ? ?", "0**", "1-1#1,", "1-1#", "1-1#1,2,3", "1-4294967296 0", "1-fffff:0:0 0",
@@ -807,7 +807,7 @@ func main() {
 	}
 
 	// 2. hop predicates
-	nh := run.Count(100, 5000)
+	nh := run.Count(150, 5000)
 	for i := 0; i < len(hpTexts)+len(hpBad)+nh; i++ {
 		r := rng.Fork(uint64(3000000 + i))
 		var s string
@@ -841,7 +841,7 @@ func main() {
 	}
 
 	// 3. ACLs
-	na := run.Count(130, 10000)
+	na := run.Count(180, 10000)
 	for i := 0; i < na; i++ {
 		r := rng.Fork(uint64(6000000 + i))
 		mode := vgen.Pick(r, 0, 0, 0, 0, 0, 1, 2) // 0 well-formed, 1 malformed via NewACL, 2 unvalidated literal
@@ -877,7 +877,7 @@ func main() {
 	}
 
 	// 4. policies
-	np := run.Count(130, 10000)
+	np := run.Count(200, 10000)
 	for i := 0; i < np; i++ {
 		r := rng.Fork(uint64(9000000 + i))
 		g := genPolicy(r, 0)
